@@ -454,7 +454,7 @@ func decide(c *thCase, maxPrec uint) (o thOracle, fault harnessFault) {
 			analytic[i] = v
 		}
 	}
-	// interval reference: always at 2048; further only while some k has no oracle at all
+	// interval reference: always at 2048; further while some k is not resolved and has no exact oracle
 	ref, at := [2]*big.Int{}, [2]uint{}
 	for prec := uint(2048); prec <= maxPrec; prec *= 2 {
 		a := refPower(pool, c.Total, c.F, prec)
@@ -465,7 +465,10 @@ func decide(c *thCase, maxPrec uint) (o thOracle, fault harnessFault) {
 			}
 			if v, ok := refFromPower(a, k, prec); ok {
 				ref[i], at[i] = v, prec
-			} else if exact[i] == nil && analytic[i] == nil {
+			} else if exact[i] == nil && (analytic[i] == nil || c.PertBits < 8100) {
+				// no exact oracle: escalate (also when the analytic bound already decides the
+				// case, to cross-check the high-precision reference against it - unless the
+				// perturbation is beyond what maxPrec could separate anyway)
 				need = true
 			}
 		}
@@ -736,6 +739,38 @@ func TestC37(t *testing.T) {
 	}
 	rec.SetExtra("n_sweep_cases", sweepN)
 	rec.SetExtra("sweep_bounds", fmt.Sprintf("total<=%d, pool<=total+1, f=a/b with b<=%d (reduced), both modes", S, Bm))
+
+	// --- fixed deep cases: the implementation's last escalation levels and its error exit.
+	// 1-f = (3/2^40)^3 * (1 +/- 2^-B), sigma = 2/3: 2^k*(1-f)^sigma is within ~2^(k-B) of the integer 9*2^(k-80).
+	{
+		type deep struct {
+			B    uint
+			sign int
+			mode int
+		}
+		list := []deep{{18500, +1, 0}, {19000, -1, 1}}
+		if rec.Thorough() {
+			list = append(list, deep{9300, -1, 0}, deep{9300, +1, 1}, deep{18400, -1, 1}, deep{18500, -1, 0}, deep{20000, +1, 1})
+		}
+		root := new(big.Rat).SetFrac(big.NewInt(3), pow2(40))
+		for _, d := range list {
+			fac := new(big.Int).Add(pow2(d.B), big.NewInt(int64(d.sign)))
+			y := new(big.Rat).SetFrac(new(big.Int).Mul(big.NewInt(27), fac), new(big.Int).Mul(pow2(120), pow2(d.B)))
+			c := &thCase{Pool: 2, Total: 3, F: new(big.Rat).Sub(ratOne(), y), StakeClass: "fixed_deep", FClass: fmt.Sprintf("fixed_deep:B=%d", d.B),
+				Constructed: true, Root: root, N: 2, M: 3, Pert: d.sign, PertBits: d.B}
+			run := [2]bool{}
+			run[d.mode] = true
+			rep := func(key, what string, cs any) bool { return rec.Violation(key, what, cs) }
+			got, _, o := h.checkThreshold(c, run, rep, fatalT)
+			rec.Class(c.FClass)
+			switch {
+			case got[d.mode] == nil:
+				rec.Class("fixed_deep:library_error")
+			case o.want[d.mode] != nil:
+				rec.Class("fixed_deep:library_value_checked_by:" + o.src[d.mode])
+			}
+		}
+	}
 
 	// --- generated cases
 	rec.Check(func(rt *rapid.T) {
